@@ -307,7 +307,11 @@ def State.zeroRttRejected (s : State) : Option State :=
   | some s1 => match s1.zeroRttDir .uni with
     | none => none
     | some s2 =>
-      some { s2 with pending := s2.pending.clear, sendStreams := 0, dataSent := 0, connectionBlocked := [] }
+      some { s2 with pending := s2.pending.clear, sendStreams := 0, dataSent := 0, connectionBlocked := [],
+                     unackedData := Gen.rejectedUnackedData s2.unackedData,
+                     maxData := Gen.rejectedMaxData s2.maxData,
+                     streamsBlocked := if Gen.rejectedClearsStreamsBlocked then ⟨false, false⟩
+                                       else s2.streamsBlocked }
 
 /-- `StreamsState::max_send_data(id)` -/
 def State.maxSendData (s : State) (id : Nat) : Nat :=
@@ -472,11 +476,12 @@ def State.receivedReset (s : State) (id code finalOffset : Nat) : Option (State 
         | none => none
         | some s3 =>
           let s4 := s3.onStreamFrame (!stopped) id
-          if bytesRead ≠ finalOffset then
+          let credited := Gen.resetCredited stopped end_ bytesRead
+          if credited ≠ finalOffset then
             match subU finalOffset end_ with
             | none => none
             | some d =>
-              match subU finalOffset bytesRead with
+              match subU finalOffset credited with
               | none => none
               | some credits =>
                 match ({ s4 with dataRecvd := satAdd s4.dataRecvd d }).creditAndQueue credits with
@@ -648,7 +653,10 @@ def State.setMaxConcurrent (s : State) (dir : Dir) (count : Nat) : Option State 
 /-- `StreamsState::set_receive_window` followed by Connection's `if expanded { pending.max_data = true }` -/
 def State.setReceiveWindow (s : State) (rw : Nat) : State × Bool :=
   if rw > s.receiveWindow then
-    ({ s with localMaxData := satAdd s.localMaxData (rw - s.receiveWindow), receiveWindow := rw,
+    let growth := rw - s.receiveWindow
+    let cancelled := Gen.recvWindowCancelled growth s.receiveWindowShrinkDebt
+    ({ s with receiveWindowShrinkDebt := s.receiveWindowShrinkDebt - cancelled,
+              localMaxData := satAdd s.localMaxData (growth - cancelled), receiveWindow := rw,
               rtx := { s.rtx with maxData := true } }, true)
   else
     ({ s with receiveWindowShrinkDebt := satAdd s.receiveWindowShrinkDebt (s.receiveWindow - rw),
